@@ -169,10 +169,15 @@ func zzInject(conf *config.Root, pos int, sfx string) string {
 // ZZ_C15_Inject: one hostile byte appended to configuration position pos.
 //   path 0: file configuration (ValidateFix); path 1: dashboard submission
 //   (CheckUserInput on the submitted integration only, as SaveIntegration does)
-func ZZ_C15_Inject(pos, path int) {
+//   disabled 1: the integration carrying the hostile string has enabled:false
+//   (never loaded as a task, but its table is still created and migrated)
+func ZZ_C15_Inject(pos, path, disabled int) {
 	zzReset()
 	c := zzvrf.U8("hostile-byte")
 	conf := zzSkeleton()
+	if disabled == 1 {
+		conf.Integrations[1].Enabled = false
+	}
 	what := zzInject(&conf, pos, string([]byte{c}))
 	zzvrf.Event("position: " + what)
 	var verr error
@@ -202,6 +207,17 @@ func ZZ_C15_Inject(pos, path int) {
 		rec.texts = append(rec.texts, stmt)
 	}
 	_ = config.Migrate(ctx, rec, conf)
+	if disabled == 1 {
+		// a disabled integration is not loaded as a task: only the schema
+		// statements above are built from it
+		zzvrf.Assert(len(rec.texts) > 2, "sql-builders-exercised")
+		safe := zzSafeByte(c)
+		for _, s := range rec.texts {
+			zzvrf.Assert(zzvrf.Implies(zzvrf.TextDependsOn(s, c), safe), "only-identifier-characters-reach-sql-text:"+what)
+		}
+		zzvrf.Reach("end")
+		return
+	}
 	// task construction (application_name)
 	zzSQLLog = nil
 	m := conf.Integrations[1]
